@@ -77,6 +77,8 @@ def cells_unit(res):
             paths = ex.explore(run, [])
 
             def post(v, p):
+                if isinstance(v, str):  # all arguments concrete (neither cell filled): the real string - it shows no number
+                    return (not on_cp) and (not on_lcd) and not any(ch.isdigit() for ch in v)
                 if not isinstance(v, OpaqueStr) or len(getattr(v, "args", [])) != 5:
                     return False
                 cp_cell, lcd_cell = v.args[1], v.args[3]
